@@ -71,55 +71,63 @@ def strLt (a b : String) : Bool := a.toList.map Char.toNat < b.toList.map Char.t
 
 def sortedSet (l : List String) : List String := isortBy strLt (dedup l)
 
-/-! ## `write_forward_declarations`: the character-level writer with its two cursors -/
+/-! ## `write_forward_declarations`: the character-level writer
+
+The C++ keeps two iterators into the previous name (`prev_ns_iter`, `prev_ns_last`: its namespace part)
+and one into the current name (`name_iter`, which also moves backwards). Here the namespace part of the
+previous name is a list of characters, and `name_iter` is a zipper: the characters before it, reversed,
+and the characters from it on. Output is collected line by line. -/
+
+/-- `while (prev_ns_iter != prev_ns_last) { if (*prev_ns_iter == ':') { os << "}\n"; ++prev_ns_iter; } ++prev_ns_iter; }` -/
+def closeRest : List Char → List String
+  | [] => []
+  | [c] => if c = ':' then ["}\n"] else []
+  | c :: d :: rest => if c = ':' then "}\n" :: closeRest rest else closeRest (d :: rest)
+
+/-- `while (name_iter != name.begin() && name_iter[-1] != ':') --name_iter;` on (before reversed, after) -/
+def backUp : List Char → List Char → List Char × List Char
+  | [], af => ([], af)
+  | b :: rb, af => if b = ':' then (b :: rb, af) else backUp rb (b :: af)
+
+/-- the comparison loop: the rest of the previous namespace part against the name, from its start;
+    returns the closing lines and the position `name_iter` ends at -/
+def matchNs : List Char → List Char → List Char → List String × List Char × List Char
+  | [], rb, af => ([], rb, af)
+  | p :: ps, rb, [] =>
+    let z := backUp rb []
+    (closeRest (p :: ps), z.1, z.2)
+  | p :: ps, rb, a :: af =>
+    if p = a then matchNs ps (a :: rb) af
+    else
+      let z := backUp rb (a :: af)
+      (closeRest (p :: ps), z.1, z.2)
+
+/-- the `while (true)` loop: one `namespace x {` per remaining scope, then `class y;`; `pre` is the
+    part of the name before `name_iter`; returns the lines and the new namespace part (`prev_ns_last`) -/
+def openRest : Nat → List Char → List Char → List String × List Char
+  | 0, pre, _ => ([], pre)
+  | f + 1, pre, af =>
+    let comp := af.takeWhile (fun c => c != ':')
+    match af.dropWhile (fun c => c != ':') with
+    | [] => (["class " ++ String.ofList comp ++ ";\n"], pre)
+    | rest =>
+      let r := openRest f (pre ++ comp ++ rest.take 2) (rest.drop 2)
+      (("namespace " ++ String.ofList comp ++ " {\n") :: r.1, r.2)
 
 structure FwdSt where
-  out : String := ""
-  /-- previous name, the cursor into it and the end of its namespace part -/
-  prev : List Char := []
-  pi : Nat := 0
-  pl : Nat := 0
-
-/-- close the namespaces of `prev[pi, pl)`: one `}` per `::` -/
-def closeNs (prev : List Char) : Nat → Nat → Nat → String → String
-  | 0, _, _, out => out
-  | f + 1, pi, pl, out =>
-    if pi ≥ pl then out
-    else if prev[pi]? == some ':' then closeNs prev f (pi + 2) pl (out ++ "}\n")
-    else closeNs prev f (pi + 1) pl out
-
-/-- the comparison loop: returns (closes emitted into out, name cursor) -/
-def matchPrefix (prev name : List Char) : Nat → Nat → Nat → Nat → String → String × Nat
-  | 0, _, _, ni, out => (out, ni)
-  | f + 1, pi, pl, ni, out =>
-    if pi ≥ pl then (out, ni)
-    else if ni ≥ name.length || prev[pi]? != name[ni]? then
-      let out := closeNs prev (pl + 1) pi pl out
-      -- back up to the start of the component
-      let rec back : Nat → Nat → Nat
-        | 0, k => k
-        | g + 1, k => if k == 0 then 0 else if name[k - 1]? == some ':' then k else back g (k - 1)
-      (out, back ni ni)
-    else matchPrefix prev name f (pi + 1) pl (ni + 1) out
-
-/-- emit `namespace x {` for each remaining scope and `class y;` for the last component -/
-def openRest (name : List Char) : Nat → Nat → String → Nat → String × Nat
-  | 0, _, out, pl => (out, pl)
-  | f + 1, ni, out, pl =>
-    let rest := name.drop ni
-    match rest.findIdx? (fun c => c == ':') with
-    | none => (out ++ "class " ++ String.ofList rest ++ ";\n", pl)
-    | some k =>
-      openRest name f (ni + k + 2) (out ++ "namespace " ++ String.ofList (rest.take k) ++ " {\n") (ni + k + 2)
+  lines : List String := []
+  /-- `[prev_ns_iter, prev_ns_last)` between two names: the namespace part of the previous name -/
+  prevNs : List Char := []
 
 def fwdStep (st : FwdSt) (name : String) : FwdSt :=
-  let nm := name.toList
-  let (out, ni) := matchPrefix st.prev nm (st.pl + 1) st.pi st.pl 0 st.out
-  let (out, pl) := openRest nm (nm.length + 1) ni out ni
-  { out, prev := nm, pi := 0, pl }
+  let m := matchNs st.prevNs [] name.toList
+  let o := openRest (name.length + 1) m.2.1.reverse m.2.2
+  { lines := st.lines ++ m.1 ++ o.1, prevNs := o.2 }
 
-def writeForwardDeclarations (names : List String) : String :=
+def fwdLines (names : List String) : List String :=
   let st := names.foldl fwdStep {}
-  closeNs st.prev (st.pl + 1) st.pi st.pl st.out
+  st.lines ++ closeRest st.prevNs
+
+def writeForwardDeclarations (names : List String) : String := String.join (fwdLines names)
 
 end Yomm2
